@@ -111,6 +111,12 @@ def allowed (inText : Bool) (o : Op) : Bool :=
 
 def unitRange (c : Color) : Bool := c.all (fun x => decide (0 ≤ x) && decide (x ≤ 1))
 
+/-- The numbers among the operands (for `sc`/`scn`, whose operands are all numbers when well typed). -/
+def numsOf : List Obj → List Rat
+  | [] => []
+  | .num q :: rest => q :: numsOf rest
+  | _ :: rest => numsOf rest
+
 /-- Device colour spaces usable by name, with their number of components. -/
 def deviceCS : String → Option Nat
   | "DeviceGray" => some 1
@@ -247,10 +253,10 @@ def apply (env : Env) (runForm : Form → GS → Res → Option (List Glyph)) (s
     | none => none
     | some k => some ({ s with gs := { s.gs with strokeN := k, stroke := some (initialColour k) } }, [])
   | .sc, args | .scn, args =>
-    let c := args.filterMap (fun o => match o with | .num q => some q | _ => none)
+    let c := numsOf args
     if unitRange c then some ({ s with gs := { s.gs with fill := some c } }, []) else none
   | .SC, args | .SCN, args =>
-    let c := args.filterMap (fun o => match o with | .num q => some q | _ => none)
+    let c := numsOf args
     if unitRange c then some ({ s with gs := { s.gs with stroke := some c } }, []) else none
   | .Do, [.name n] =>
     match lookup n s.res.xobjs with
